@@ -19,7 +19,7 @@ import (
 // events for Trace_Obs, which checks it against BclVM running the decoded real dump.
 
 var (
-	reInstr = regexp.MustCompile(`^(\d{4}) +(\S+)( +(\S+))?(.*)$`)
+	reInstr = regexp.MustCompile(`^(\d{4,}) +(\S+)( +(\S+))?(.*)$`)
 	reStack = regexp.MustCompile(`^ {13}(\d+): `)
 	reStat  = regexp.MustCompile(`^([px]stats)\.(\w+): *(-?\d+)$`)
 	reHead  = regexp.MustCompile(`^== .* ==$`)
@@ -89,8 +89,12 @@ type instrLine struct {
 // instrOf parses one listing line: offset, position column ("L:C" or "|"), mnemonic, first numeric operand, jump target
 func instrOf(l string) instrLine {
 	il := instrLine{arg: -1, target: -1}
-	il.off, _ = strconv.Atoi(l[:4])
-	f := strings.Fields(l[4:])
+	w := strings.IndexByte(l, ' ') // the offset column is as wide as the number needs (at least four digits)
+	if w < 0 {
+		w = len(l)
+	}
+	il.off, _ = strconv.Atoi(l[:w])
+	f := strings.Fields(l[w:])
 	if len(f) >= 1 && f[0] != "|" {
 		if i := strings.IndexByte(f[0], ':'); i > 0 {
 			il.pl, _ = strconv.Atoi(f[0][:i])
@@ -192,6 +196,35 @@ func driveObs(args []string) int {
 				allOn = o
 			}
 		}
+		// parsing and executing as two calls with two different output writers: where the program's own lines go must not depend
+		// on the introspection options of the Execute call
+		if base.Err == "" || strings.HasPrefix(base.Err, "runtime error") {
+			twoStep := func(t, st bool) (a, b string, bad string) {
+				defer func() {
+					if r := recover(); r != nil {
+						bad = fmt.Sprint("panic: ", r)
+					}
+				}()
+				var wa, wb, lg bytes.Buffer
+				p, err := bcl.Parse(src, "input", bcl.OptOutput(&wa), bcl.OptLogger(&lg))
+				if err != nil {
+					return "", "", ""
+				}
+				bcl.Execute(p, bcl.OptTrace(t), bcl.OptStats(st), bcl.OptOutput(&wb), bcl.OptLogger(&lg))
+				oa, _, ba := splitObs(wa.String())
+				ob, _, bb := splitObs(wb.String())
+				return oa, ob, ba + bb
+			}
+			a0, b0, _ := twoStep(false, false)
+			for k := 1; k < 4; k++ {
+				a, b, bad := twoStep(k&1 != 0, k&2 != 0)
+				if bad != "" || a != a0 || b != b0 {
+					s.bad(fmt.Sprintf("with the program parsed for one output writer and executed with another, the lines printed by the program move or change when trace=%v stats=%v", k&1 != 0, k&2 != 0),
+						"obs:changes-output", raw, map[string]string{"prog_writer_plain": a0, "exec_writer_plain": b0, "prog_writer": a, "exec_writer": b, "structure": bad}, true)
+					return
+				}
+			}
+		}
 		// the structure of the all-on run goes to TLC together with the real dump
 		p, perr := bcl.Parse(src, "input", bcl.OptLogger(&bytes.Buffer{}), bcl.OptOutput(&bytes.Buffer{}))
 		hdr := map[string]any{"e": "reset", "accepted": perr == nil, "dump": []int{}, "src": string(src), "srcb": intsOf(src), "err": vmErrClassS(base.Err)}
@@ -233,3 +266,74 @@ func vmErrClassS(e string) string {
 }
 
 func init() { register("drive-obs", driveObs) }
+
+// replay-listing (C19): programs with more than 9 999 bytes of code; the specification writes out offset and mnemonic of every line
+// of the disassembly (Gen_Listing); the trace must list the same instructions in the same order and the statistics must count them.
+func replayListing(args []string) int {
+	op := parseOpts(args)
+	s := newSummary("listing")
+	eachCase(openIn(op), func(raw []byte) {
+		var c struct {
+			Fam   string `json:"fam"`
+			N     int    `json:"n"`
+			Lines []struct {
+				Off int    `json:"off"`
+				Op  string `json:"op"`
+			} `json:"lines"`
+			OpsRead int `json:"opsread"`
+		}
+		if json.Unmarshal(raw, &c) != nil || c.Fam != "listing" {
+			s.Skipped++
+			return
+		}
+		short := []byte(fmt.Sprintf(`{"fam":"listing","n":%d}`, c.N))
+		if !s.note(short, true, short) {
+			return
+		}
+		s.Judged++
+		src := []byte(strings.Repeat("print 1;", c.N) + "\n")
+		o := runWithOpts(src, true, true, true)
+		if o.Panic != "" || o.Err != "" {
+			s.bad(fmt.Sprintf("n=%d: the program does not run with all options on: %s %s", c.N, o.Panic, o.Err), "listing:run", short, o.Err, true)
+			return
+		}
+		_, events, bad := splitObs(o.Out)
+		if bad != "" {
+			s.bad(bad, "obs:structure", short, nil, true)
+			return
+		}
+		var dis, trc []map[string]any
+		opsRead := -1
+		for _, e := range events {
+			switch e["e"] {
+			case "disasm":
+				dis = append(dis, e)
+			case "trace":
+				trc = append(trc, e)
+			case "stat":
+				if e["key"] == "opsRead" || e["key"] == "ops_read" || strings.EqualFold(fmt.Sprint(e["key"]), "opsread") {
+					opsRead = e["n"].(int)
+				}
+			}
+		}
+		for name, got := range map[string][]map[string]any{"disassembly": dis, "trace": trc} {
+			if len(got) != len(c.Lines) {
+				s.bad(fmt.Sprintf("n=%d: the %s has %d instruction lines, the program has %d instructions", c.N, name, len(got), len(c.Lines)), "listing:count", short, len(got), true)
+				return
+			}
+			for i, w := range c.Lines {
+				if got[i]["off"] != w.Off || got[i]["op"] != w.Op {
+					s.bad(fmt.Sprintf("n=%d: line %d of the %s reads offset %v %v, the instruction there is %d %s", c.N, i+1, name, got[i]["off"], got[i]["op"], w.Off, w.Op), "listing:line", short,
+						map[string]any{"line": i + 1, "got_off": got[i]["off"], "got_op": got[i]["op"]}, true)
+					return
+				}
+			}
+		}
+		if opsRead >= 0 && opsRead != c.OpsRead {
+			s.bad(fmt.Sprintf("n=%d: the statistics report %d instructions read, the trace lists %d", c.N, opsRead, c.OpsRead), "listing:opsread", short, opsRead, true)
+		}
+	})
+	return s.write(op)
+}
+
+func init() { register("replay-listing", replayListing) }
